@@ -22,12 +22,20 @@ Serial(r) ==
         R == [s \in S |-> Outs(r.results[s])]
     IN  ExplainsG(N, S, P, R, Db(r.init), [s \in S |-> 0], Db(r.final))
 
+\* explainable when overlapping DELETEs may double-count (finding F21), two or more acknowledged DELETEs on one table
+SerialDD(r) ==
+    LET S == DOMAIN r.prog
+        N == DOMAIN r.init
+        P == [s \in S |-> Stmts(r.prog[s])]
+        R == [s \in S |-> Outs(r.results[s])]
+    IN  ExplainsDD(N, S, P, R, Db(r.init), [s \in S |-> 0], Db(r.final))
+
 Reopens(r) == r.reopened_ok /\ Db(r.reopened) = Db(r.final)
 
 VARIABLE i
 Init == i = 1
 Next == /\ i <= Len(Recs)
-        /\ PrintT(<<"VERDICT", Recs[i].id, Serial(Recs[i]), Reopens(Recs[i])>>)
+        /\ PrintT(<<"VERDICT", Recs[i].id, Serial(Recs[i]), Reopens(Recs[i]), SerialDD(Recs[i])>>)
         /\ i' = i + 1
 Spec == Init /\ [][Next]_i
 ==============================================================================
